@@ -32,7 +32,7 @@ func c01Case(c *runner.Ctx) (docs []*model.MDoc, mode uint32, shape string) {
 		docs, _ := gen.JumboBatch(r, 66000+r.Intn(3000), fmt.Sprintf("h%d", c.Idx))
 		return docs, []uint32{1025, 1024}[r.Intn(2)], "huge"
 	case c.Idx%400 == 4 || c.Idx%400 == 5:
-		n := 2200 + r.Intn(900)
+		n := gen.JumboSize(r, 1000, 2100)
 		if thorough && c.Idx%800 == 4 {
 			n = 4000 + r.Intn(1200)
 		}
@@ -64,6 +64,16 @@ func c01Run(c *runner.Ctx) {
 	}
 	if !compare(c, "built", sg.S, sg.X, model.PostingsOnly, desc) {
 		return
+	}
+	// the segment must keep answering the same after LATER builds (the builder's pooled state is recycled by them)
+	if c.Idx%4 == 0 && len(docs) > 0 && len(docs) < 400 {
+		other := gen.GenBatch(c.R, gen.GenSchema(c.R), 1+c.R.Intn(20), fmt.Sprintf("o%d", c.Idx), gen.DocOpts{Repeat: true})
+		if _, err := gen.BuildSeg(other, gen.Mode(c.R, 20)); err == nil {
+			c.Inc("reobserved_after_a_later_build", 1)
+			if !compare(c, "built-then-another-build", sg.S, sg.X, model.PostingsOnly, desc) {
+				return
+			}
+		}
 	}
 	// numbering: Count == batch size
 	if int(sg.S.Count()) != len(docs) {
